@@ -110,6 +110,11 @@ class Ops:
         return self.seq_map_coerce(v, sort)
     if isinstance(sort, SetOf) and isinstance(v, SV) and isinstance(v.sort, SetOf) and v.sort.elem.name == sort.elem.name:
       return SV(sort, v.t)
+    if isinstance(sort, SetOf) and isinstance(v, LitSet):
+      t = sort.empty()
+      for x in sorted(v.items):
+        t = z3.Store(t, self.coerce(Lit(x), sort.elem).t, True)
+      return SV(sort, t)
     if isinstance(sort, MapOf) and isinstance(v, SV) and isinstance(v.sort, MapOf) and v.sort.name == sort.name:
       return SV(sort, v.t)
     raise OutsideSubset(f'cannot coerce {v!r} to {sort}')
@@ -231,6 +236,14 @@ class Ops:
     a, b = self.deref(a), self.deref(b)
     if isinstance(a, Lit) and isinstance(b, Lit):
       return zbool(a.py == b.py)
+    if isinstance(a, LitSet) or isinstance(b, LitSet):
+      if isinstance(a, LitSet):
+        a, b = b, a
+      if isinstance(a, LitSet):
+        return zbool(a.items == b.items)
+      if isinstance(a, SV) and isinstance(a.sort, SetOf):
+        return a.t == self.coerce(b, a.sort).t
+      raise OutsideSubset('== between a set literal and a non-set')
     if isinstance(a, PyTuple) and isinstance(b, PyTuple):
       if len(a) != len(b):
         return zbool(False)
